@@ -16,6 +16,8 @@ def build(chk, ip, runner):
     chk.design_ref = 'DESIGN.md section 5 C12'
     chk.units = c12_gex.run_units() + c12_gex.send_init_units()
     chk.stubs = c12_gex.stubs() + c12_gex.send_init_stubs()
+    chk.assumptions = ['GEXTest.run unit: the server is the contract of _send_init (any answer -1 or >= 1 per probe); the OutputBuffer, the socket and SSH2_Kex.set_dh_modulus_size are abstract recorders',
+                       '_send_init unit: reconnect / send_init_gex / recv_reply / get_dh_modulus_size are abstract (any result >= 1, KexDHException possible)']
     chk.customs = [custom_native]
     chk.level = 'other'
     chk.explanation = ('GEXTest.run verified against an arbitrary server (the contract of _send_init returns unconstrained answers); '
